@@ -313,6 +313,7 @@ func (enc *Encoder) Reset() *Encoder {
 // ResetBuffer of the Encoder.
 func (enc *Encoder) ResetBuffer() *Encoder {
 	enc.buf = enc.buf[:0]
+	enc.off = 0
 	enc.Error = nil
 	return enc
 }
